@@ -659,6 +659,11 @@ pub fn run_case_plan(run: &mut Run, rng: &mut Rng, cfg: &Cfg, iters: usize, faul
                                             if id_of(c.host) != r.addr || clock::ns_of(c.received) != r.recv || c.tos.map(|t| t.0) != tos {
                                                 run.fail("c01-response-data", format!("{} (probe seq {seq}: reported {} but the response was from {} at {} tos {:?})", ctx(), show_slot(ps), r.addr, r.recv, tos));
                                             }
+                                            // C14 through the strategy: the extension objects of a Time Exceeded / Destination Unreachable
+                                            // response reach the published round (echo replies and TCP answers carry none)
+                                            if matches!(r.kind, "te" | "du") && c.extensions.as_ref().map(|e| e.extensions.len()) != r.ext {
+                                                run.fail("c14-extensions-not-as-received", format!("{} (probe seq {seq}: the {} response carried {:?} extension objects, the round reports {:?})", ctx(), r.kind, r.ext, c.extensions.as_ref().map(|e| e.extensions.len())));
+                                            }
                                             if let (PResp::Udp { exp, act, .. }, Some(e), Some(a)) = (&r.proto, c.expected_udp_checksum, c.actual_udp_checksum) {
                                                 if e.0 != *exp || a.0 != *act {
                                                     run.fail("c19-checksums-not-as-received", format!("{} (probe seq {seq}: response carried expected {exp} / quoted {act}, reported {} / {})", ctx(), e.0, a.0));
